@@ -20,7 +20,7 @@ def chk(pid, text, note, tech, ref=None):
 OVERLAY_NOTE = " The instrumented build (sync/exec shims, controlled map iteration) is conformance-replayed against the plain build on every run."
 
 chk("C01",
-    "Bounded-exhaustive robustness exploration on five input channels (workflow file, local action metadata, local reusable workflow, repository actionlint.yaml, -config-file): every value and key position of the channel's seeds (for workflows: 4 seeds that populate every key of the syntax) x ~115 YAML fragments (every node kind, explicit !!float/!!int/!!bool/!!null/!!str/!!binary/!!timestamp/custom tags with arbitrary text, anchors, aliases, merge keys, nesting to depth 5000, invalid UTF-8, NUL, block forms), all byte strings of length <=2 on every channel, and all expression token sequences / character strings up to length 3 (thorough 4, plus all pairs of fragments in sibling positions) inside ${{ }} and bare if: through the whole Linter; oracle: no panic (recovered in-process), result is diagnostics xor fatal error, termination under a 120 s watchdog; unrecoverable runtime crashes of a worker are attributed through a progress file.",
+    "Bounded-exhaustive robustness exploration on five input channels (workflow file, local action metadata, local reusable workflow, repository actionlint.yaml, -config-file): every value and key position of the channel's seeds (for workflows: 4 seeds that populate every key of the syntax) x ~115 YAML fragments (every node kind, explicit !!float/!!int/!!bool/!!null/!!str/!!binary/!!timestamp/custom tags with arbitrary text, anchors, aliases, merge keys, nesting to depth 5000, invalid UTF-8, NUL, block forms), all byte strings of length <=2 on every channel, and all expression token sequences / character strings up to length 3 (thorough 5, plus all pairs of fragments in sibling positions) inside ${{ }} and bare if: through the whole Linter; oracle: no panic (recovered in-process), result is diagnostics xor fatal error, termination under a 120 s watchdog; unrecoverable runtime crashes of a worker are attributed through a progress file.",
     "The universal claim over all byte strings <= 64 KiB is out of reach of enumeration: covered is every (position x node kind x tag) combination, their sibling pairs, and all tiny files. yaml.v3 is explored only as far as these inputs drive it. A hang is a case running > 120 s." + OVERLAY_NOTE,
     "exhaustive enumeration of (channel, position, fragment) and of all short byte/token strings; crash/hang oracle")
 chk("C02",
